@@ -148,6 +148,8 @@ def struct_stages(tier, seg_depth_q=1, seg_depth_t=2, extra_kinds=()):
         dict(name="noseg-given-bfs", worlds=["noseg-2d-given", "noseg-2d-given0"], seeds=["div", "two", "desc"], depth=2 if q else 3, kinds=kinds),
         dict(name="renamed-keys", worlds=["noseg-2d-renamed", "noseg-2d-renamed-given"], seeds=["div", "skip", "zero"],
              depth=1 if q else 2, kinds=kinds),
+        dict(name="reloaded", worlds=["noseg-2d-reloaded", "seg-2d-reloaded"], seeds=["div", "two", "desc"],
+             depth=1 if q else 2, kinds=kinds),
         dict(name="forests", worlds=["noseg-2d-given"], seeds=forests_seeds(4 if q else 5, 3 if q else 4), depth=1, kinds=kinds),
         # constructor clause: ids computed by the constructor on every forest
         dict(name="forests-computed-ids", worlds=["noseg-2d"], seeds=forests_seeds(4 if q else 5, 3 if q else 4), depth=1,
